@@ -28,11 +28,12 @@ import CnvVerif.Driver.Haar
 import CnvVerif.Driver.HaarExt
 import CnvVerif.Driver.Stats
 import CnvVerif.Driver.StatsGlue
+import CnvVerif.Driver.StatsExt5
 import CnvVerif.Driver.RangesExt
 open Lean CnvVerif.Drv
 
 def handlers : List (String → Json → Option Json → R (Option Json)) :=
-  [handleInterval, handleRangesExt, handleCall, handleCallCmd, handleSegFilter, handleSegFilterExt, handleTile, handleCenter, handleSexExt, handleFix, handleAccess, Genes.handleGenes, handleFormats, handleFormatsExt, handleExport, handleExportExt, C20Ci.handleExportCi, Reference.handleReference, handleCoverage, handleCoverageExt, handleEffects, handleEffectsExt, handleBins, handleVcf, handleVcfExt, handleDescriptives, Haar.handleHaar, HaarExt.handleHaarExt, handleStats, handleStatsGlue]
+  [handleInterval, handleRangesExt, handleCall, handleCallCmd, handleSegFilter, handleSegFilterExt, handleTile, handleCenter, handleSexExt, handleFix, handleAccess, Genes.handleGenes, handleFormats, handleFormatsExt, handleExport, handleExportExt, C20Ci.handleExportCi, Reference.handleReference, handleCoverage, handleCoverageExt, handleEffects, handleEffectsExt, handleBins, handleVcf, handleVcfExt, handleDescriptives, Haar.handleHaar, HaarExt.handleHaarExt, handleStats, handleStatsGlue, handleStatsExt5]
 
 def dispatch (op : String) (inp : Json) (impl : Option Json) : R Json := do
   for h in handlers do
